@@ -40,11 +40,28 @@ def check(run):
     gm = getmap(p)
     disc = p.method('BaseConstraintDiscoverer', 'discover_field_constraints')
     gmap = GuardMap(disc.node)
-    thresh(run, p, disc, gmap, gm)
-    strong(run, p, km, disc)
+    discovery_table(run, p)
+    semantic_ok = all(o.ok for o in run.obs if o.rule == 'C07-DISCOVERY')
+    # The structural rules below name the site of a problem.  THRESH, STRONG and ABSENT restate clauses that C07-DISCOVERY
+    # has just decided by abstract execution; if one of them loses its anchor or disagrees while the execution holds, it
+    # has misread a refactored shape: that is a note, not a violation.  LENCHARS (which len is used) is not visible to the
+    # execution and stays strict.
+    for rid, fn_, args, covered in (('C07-THRESH', thresh, (run, p, disc, gmap, gm), True), ('C07-STRONG', strong, (run, p, km, disc), True),
+                                    ('C07-ABSENT', absent, (run, p, disc, gmap), True), ('C07-LENCHARS', lenchars, (run, p, disc, gmap), False)):
+        before = len(run.obs), len(run.floors)
+        try:
+            fn_(*args)
+            failed = [o for o in run.obs[before[0]:] if not o.ok] or [f_ for f_ in run.floors[before[1]:] if f_[1] < f_[2]]
+            if failed and covered and semantic_ok:
+                raise AnalysisError('its reading of the code disagrees with the abstract execution: %s' % (
+                    failed[0].msg[:80] if hasattr(failed[0], 'msg') else 'instance count %r' % (failed[0],)))
+        except AnalysisError as e:
+            if not (covered and semantic_ok):
+                raise
+            del run.obs[before[0]:]
+            del run.floors[before[1]:]
+            run.note(rid, 'per-site analysis skipped (%s); the clause is decided by C07-DISCOVERY' % e, fn=disc)
     agg(run, p)
-    absent(run, p, disc, gmap)
-    lenchars(run, p, disc, gmap)
     nocache_rule(run, 'C07-NOSHARED', p, ['tdda.constraints.db.drivers', 'tdda.constraints.db.constraints', 'tdda.constraints.baseconstraints'],
                  'statistics describe the table or frame at hand: no memoising decorator and no class-level container used as a cache in the '
                  'database handlers or the shared discovery/verification base (such a cache is keyed by name only and shared by every connection)')
@@ -351,3 +368,133 @@ def dtypes(run, p):
             run.ob('C07-DTYPES', 'dtype=%s' % name, got == want,
                    'a column of dtype %s is classed %r%s' % (name, got, '' if got == want else ' (documented: %r)' % want), fn=f)
     run.floor('C07-DTYPES', n, 30)
+
+
+def discovery_table(run, p, rid='C07-DISCOVERY'):
+    """discover_field_constraints evaluated with a stand-in calculator over a grid of column summaries, against the
+    documented discovery rules (an independent oracle written here)."""
+    import itertools
+    from ..pyeval import Interp, Obj, Unsupported, Raised
+    run.rule(rid, 'discovery emits exactly what the documentation says, for every combination of a grid of column summaries (type, '
+                  'number of records, nulls, distinct values, minimum and maximum in all six orderings around zero and null, the '
+                  'distinct strings): type always; nothing else for an empty dataset; max_nulls for 0 or 1 nulls; min / max when '
+                  'not null; the strongest true sign class (none for mixed signs or dates, "null" when there is no value); '
+                  'lengths and allowed values from the distinct strings (allowed values only up to 20 of them); no_duplicates '
+                  'when all non-null values are distinct, more than one, and the type is not real - decided by abstract '
+                  'execution of discover_field_constraints with stand-in statistics')
+    disc = p.method('BaseConstraintDiscoverer', 'discover_field_constraints')
+    maxcat = 20            # documented: allowed values for up to twenty distinct strings
+    n = 0
+    bad = []
+    mm = [(1, 5), (0, 5), (0, 0), (-5, 0), (-5, -1), (-5, 5), (None, None)]
+    strings = {3: ['ab', 'c', 'defg'], 20: ['s%02d' % i for i in range(20)], 21: ['t%02d' % i for i in range(21)], 1: ['only']}
+    grid = []
+    for type_ in ('int', 'real', 'date', 'bool'):
+        for length, nnull in ((0, 0), (6, 0), (6, 1), (6, 2), (6, 6)):
+            for m, M in mm:
+                for nuniq_kind in ('all', 'fewer'):
+                    grid.append((type_, length, nnull, m, M, nuniq_kind, None))
+    for length, nnull in ((0, 0), (30, 0), (30, 1), (30, 2)):
+        for k, vals in strings.items():
+            for nuniq_kind in ('all', 'fewer'):
+                grid.append(('string', length, nnull, None, None, nuniq_kind, vals))
+                if k == 3:
+                    for rexes in ([], ['^[a-z]+$']):
+                        grid.append(('string', length, nnull, 'rex', rexes, nuniq_kind, vals))
+    grid.append(('other', 5, 0, 1, 2, 'all', None))
+    for type_, length, nnull, m, M, nuniq_kind, vals in grid:
+        nnon = length - nnull
+        if type_ == 'string':
+            nuniq = len(vals)
+            if nuniq_kind == 'all':
+                nnon_eff = nuniq                      # all distinct: as many non-null records as distinct strings
+                length_eff, nnull_eff = nuniq + nnull, nnull
+            else:
+                length_eff, nnull_eff, nnon_eff = nuniq + 3 + nnull, nnull, nuniq + 3
+            if length == 0:
+                length_eff = nnull_eff = nnon_eff = 0
+        else:
+            length_eff, nnull_eff, nnon_eff = length, nnull, nnon
+            nuniq = nnon if nuniq_kind == 'all' else max(nnon - 1, 0)
+            if nnon_eff == 0:
+                m = M = None
+        inc_rex, rexes = False, None
+        if m == 'rex':
+            inc_rex, rexes, m, M = True, M, None, None
+        I = Interp(p, consts={'unicode_string': str, 'byte_string': bytes, 'long_type': int})
+
+        def hook(mth, args, kwargs, selfobj, rexes=rexes, type_=type_, m=m, M=M, vals=vals, nuniq=nuniq, L=length_eff, NN=nnull_eff, NV=nnon_eff):
+            stubs = {'calc_tdda_type': type_, 'get_nrecords': L, 'calc_null_count': NN, 'calc_non_null_count': NV,
+                     'calc_nunique': nuniq, 'calc_min': m, 'calc_max': M, 'find_rexes': rexes,
+                     'calc_unique_values': list(vals) if vals else []}
+            if mth.name in stubs:
+                return True, stubs[mth.name]
+            if mth.name == 'is_null':
+                return True, args[0] is None
+            if mth.name == 'native_definite':
+                return True, args[0]
+            if mth.name == 'calc_min_length':
+                return True, min(len(v) for v in vals) if vals else None
+            if mth.name == 'calc_max_length':
+                return True, max(len(v) for v in vals) if vals else None
+            return False, None
+        I.on_call = hook
+        o = Obj(p.cls('BaseConstraintDiscoverer'))
+        o.attrs.update(inc_rex=inc_rex, seed=None)
+        try:
+            fc = I.call(disc, ['f'], selfobj=o)
+        except Raised as e:
+            bad.append(((type_, length_eff, nnull_eff, m, M, nuniq), 'raises %s' % e, None))
+            n += 1
+            continue
+        except Unsupported as e:
+            raise AnalysisError('discover_field_constraints is not evaluable: %s' % e)
+        n += 1
+        got = None
+        if isinstance(fc, Obj):
+            cons = fc.attrs.get('constraints')
+            cons = cons if isinstance(cons, dict) else (cons.items if isinstance(cons, Obj) else {})
+            got = {k: v.attrs.get('value') for k, v in cons.items()}
+        # the documented rules
+        if type_ == 'other':
+            want = None
+        else:
+            want = {'type': type_}
+            if length_eff > 0:
+                if nnull_eff < 2:
+                    want['max_nulls'] = nnull_eff
+                if type_ == 'string':
+                    if vals and nuniq <= maxcat and nnon_eff > 0:
+                        want['allowed_values'] = list(vals)
+                    if nnon_eff > 0 and vals:
+                        want['min_length'] = min(len(v) for v in vals)
+                        want['max_length'] = max(len(v) for v in vals)
+                elif nnon_eff > 0:
+                    if m is not None:
+                        want['min'] = m
+                    if M is not None:
+                        want['max'] = M
+                    if type_ != 'date':
+                        if m is not None and M is not None:
+                            if m == M == 0:
+                                want['sign'] = 'zero'
+                            elif m > 0:
+                                want['sign'] = 'positive'
+                            elif m == 0:
+                                want['sign'] = 'non-negative'
+                            elif M < 0:
+                                want['sign'] = 'negative'
+                            elif M == 0:
+                                want['sign'] = 'non-positive'
+                        elif m is None:
+                            want['sign'] = 'null'
+                if type_ in ('string', 'int') and nuniq == nnon_eff and nuniq > 1:
+                    want['no_duplicates'] = True
+            if type_ == 'string' and inc_rex and rexes:
+                want['rex'] = list(rexes)
+        if got != want:
+            bad.append(((type_, length_eff, nnull_eff, m, M, nuniq), got, want))
+    run.ob(rid, '%s::%s::grid' % (disc.rel, disc.short), not bad,
+           '%d column summaries evaluated%s' % (n, '' if not bad else '; %d wrong, e.g. (type, records, nulls, min, max, distinct)=%r gives %r, documented %r' % (
+               (len(bad),) + bad[0])), fn=disc, detail={'wrong': [repr(b)[:300] for b in bad[:6]]} if bad else None)
+    run.floor(rid, n, 300)
